@@ -537,7 +537,8 @@ pub fn det_line(c: &FwCase, p: &mut Prng) -> String {
         "det ok\n".into()
     } else {
         let which = if a != b { "second-instance" } else if a != d { "clone" } else if a != e { "clone_from-into-fresh-instance" } else { "clone_from-into-used-instance" };
-        format!("det fail clone_at={:?} {}\n", at, which)
+        let panicked = !a.iter().any(|x| x == "panic") && [&b, &d, &e, &g].iter().any(|v| v.iter().any(|x| x == "panic"));
+        format!("det fail clone_at={:?} {}{}\n", at, which, if panicked { " copy-panicked" } else { "" })
     }
 }
 
